@@ -1,7 +1,7 @@
 import os
 import core
 
-STREAMS = ["c16", "c16pol", "c17gw", "c16gw"]
+STREAMS = ["c16", "c16pol", "c17gw", "c16gw", "c16order"]
 NEEDS_BINARY = True
 HARNESS_ARGS = ("-rdpgw", os.path.join(core.BUILD, "rdpgw"))
 RULE = ("all 128 combinations of the seven redirect switches x idle timeouts {-2^31, -1, 0, 1, 30, 2^31-1} (more in thorough) x "
@@ -16,7 +16,7 @@ ASSUMPTIONS = ["idle timeouts outside the int32 range are reported modulo 2^32 (
 
 
 def nontrivial(c):
-    return c.kind in ("tunnelauthgw", "handshakegw") or " R" in (" " + c.impl)
+    return c.kind in ("tunnelauthgw", "handshakegw", "exact") or " R" in (" " + c.impl)
 
 
 def signature(c):
